@@ -5,8 +5,10 @@ import OAuth2Model.Driver.AuthUrl
 import OAuth2Model.Driver.Pkce
 import OAuth2Model.Driver.UrlT
 import OAuth2Model.Driver.SecEq
+import OAuth2Model.Driver.Resp
 import OAuth2Model.Driver.Tok
 import OAuth2Model.Driver.Err
+import OAuth2Model.Driver.Adapter
 
 def dispatch (line : String) : String :=
   match (line.trimAscii.toString.splitOn " ").filter (· ≠ "") with
@@ -23,8 +25,10 @@ def dispatch (line : String) : String :=
     | "rand" => Drv.PkceOp.runRand args
     | "url" => Drv.UrlOp.run args
     | "seceq" => Drv.SecEqOp.run args
+    | "resp" => Drv.RespOp.run args
     | "tok" => Drv.TokOp.run args
     | "err" => Drv.ErrOp.run args
+    | "adp" => Drv.AdapterOp.run args
     | _ => "bad-op"
 
 partial def loop (h : IO.FS.Stream) (out : IO.FS.Stream) : IO Unit := do
